@@ -1140,8 +1140,17 @@ func ruleBodyWritesAccounted(id string) func(*Checker) {
 			return
 		}
 		n := 0
+		var fns []*ssa.Function
+		seenFn := map[*ssa.Function]bool{}
 		for _, w := range pc.Walks {
-			fn := w.Fn
+			for _, f := range sortedFuncs(p.reach(w.Fn)) {
+				if p.InModule(f) && f.Package() != nil && f.Package().Pkg.Path() == p.PkgPath("slug") && !seenFn[f] {
+					seenFn[f] = true
+					fns = append(fns, f)
+				}
+			}
+		}
+		for _, fn := range fns {
 			isTarW := func(v ssa.Value) bool {
 				t := v.Type()
 				if mi, ok := v.(*ssa.MakeInterface); ok {
